@@ -1,4 +1,4 @@
-CONSTANTS MaxTx = 6  MaxH = 10  Level = 3
+CONSTANTS DispModes = {FALSE}  MaxTx = 5  MaxH = 10  Level = 3
 INIT Init
 NEXT NextCover
 VIEW view
